@@ -40,7 +40,12 @@ const (
 	tIter
 	tReset
 	tReopen
+	tGet // Get(k) as an operation of its own (only in first-read probes: Get is an observation elsewhere)
 )
+
+// fnQuiet (a bit of top.fn): no observation after this operation. Histories of first-read probes
+// end with "<op without observation> Get(k)": the Get is then the first read after the operation.
+const fnQuiet uint8 = 0x80
 
 const (
 	fnNone uint8 = iota
@@ -48,7 +53,7 @@ const (
 	fnAll3
 )
 
-var tKindNames = []string{"Set", "DeleteBelow", "IterateKV", "Reset", "Reopen"}
+var tKindNames = []string{"Set", "DeleteBelow", "IterateKV", "Reset", "Reopen", "Get"}
 var tFnNames = []string{"none", "even-keys:v+1", "all:3"}
 
 const maxU = math.MaxUint64
@@ -66,10 +71,19 @@ type topJ struct {
 	V  uint64 `json:"v,omitempty"`
 	TS uint64 `json:"ts,omitempty"`
 	Fn string `json:"fn,omitempty"`
+	// Quiet: the harness made no observation (Get of every key, IterateKV) after this operation
+	Quiet bool `json:"no_observation_after,omitempty"`
 }
 
 func (o top) String() string {
+	if o.fn&fnQuiet != 0 {
+		q := o
+		q.fn &^= fnQuiet
+		return q.String() + "[unobserved]"
+	}
 	switch o.kind {
+	case tGet:
+		return fmt.Sprintf("Get(%d)", o.k)
 	case tSet:
 		return fmt.Sprintf("Set(%d,%d)", o.k, o.v)
 	case tDel:
@@ -83,7 +97,16 @@ func (o top) String() string {
 }
 
 func (o top) J() topJ {
+	if o.fn&fnQuiet != 0 {
+		q := o
+		q.fn &^= fnQuiet
+		j := q.J()
+		j.Quiet = true
+		return j
+	}
 	switch o.kind {
+	case tGet:
+		return topJ{Op: "Get", K: o.k}
 	case tSet:
 		return topJ{Op: "Set", K: o.k, V: o.v}
 	case tDel:
@@ -97,7 +120,16 @@ func (o top) J() topJ {
 }
 
 func (j topJ) top() top {
+	if j.Quiet {
+		q := j
+		q.Quiet = false
+		o := q.top()
+		o.fn |= fnQuiet
+		return o
+	}
 	switch j.Op {
+	case "Get":
+		return top{kind: tGet, k: j.K}
 	case "Set":
 		return top{kind: tSet, k: j.K, v: j.V}
 	case "DeleteBelow":
@@ -240,6 +272,7 @@ const (
 	misIterDup            // IterateKV visited a live pair twice
 	misIterMissing        // IterateKV did not visit a live pair
 	misReopen             // white-box / Stats difference across Reopen
+	misReuse              // a Set on a reopened tree advanced the allocation frontier while recycled pages were free
 )
 
 type tmis struct {
@@ -264,6 +297,9 @@ func (m tmis) String() string {
 		return fmt.Sprintf("IterateKV visits (%d,%d) twice", m.k, m.got)
 	case misIterMissing:
 		return fmt.Sprintf("IterateKV never visits live (%d,%d)", m.k, m.want)
+	}
+	if m.kind == misReuse {
+		return fmt.Sprintf("Set on the reopened tree moved the allocation frontier by %d page(s) although %d recycled page(s) remain on the free list", m.got, m.want)
 	}
 	return fmt.Sprintf("%s after Reopen = %d, before = %d", m.field, m.got, m.want)
 }
@@ -290,6 +326,11 @@ const (
 // the engine: one live tree, exact restore, step + oracle
 
 type teng struct {
+	impure bool // an observation changed the tree's white-box state
+	// reopenedInRun: the operations executed on the live tree since it was last put into a known
+	// state (fresh / restore) include a Reopen: Sets are then also judged for "recycled pages are
+	// reused" (C16)
+	reopenedInRun bool
 	prop    string // "C10" or "C16"
 	cfg     *tcfg
 	res     *tres
@@ -442,6 +483,7 @@ func (e *teng) fresh() (pan any) {
 		e.t.Reset()
 	}
 	e.hi = 0
+	e.reopenedInRun = false
 	e.bump()
 	return nil
 }
@@ -547,10 +589,33 @@ func (e *teng) step(op top, model []uint64) (pan any, mism []tmis) {
 		e.bump()
 	}()
 	e.mism = e.mism[:0]
+	quiet := op.fn&fnQuiet != 0
+	op.fn &^= fnQuiet
 	switch op.kind {
+	case tGet:
+		want := uint64(0)
+		if idx, ok := e.kidx[op.k]; ok {
+			want = model[idx]
+		}
+		if got := e.t.Get(op.k); got != want {
+			e.mism = append(e.mism, tmis{kind: misGet, k: op.k, got: got, want: want})
+			return nil, e.mism
+		}
 	case tSet:
+		judgeReuse := e.prop == "C16" && e.reopenedInRun
+		var pre z.VerifTreeMeta
+		if judgeReuse {
+			pre = z.VerifTreeMetaOf(e.t)
+		}
 		e.t.Set(op.k, op.v)
 		model[e.kidx[op.k]] = op.v
+		if judgeReuse {
+			// Set never frees pages: every node it allocates must come from the free list while
+			// that is non-empty, so the frontier may only move once the list is exhausted
+			if post := z.VerifTreeMetaOf(e.t); post.NextPage > pre.NextPage && post.Stats.NumPagesFree > 0 && post.FreePage != 0 {
+				e.mism = append(e.mism, tmis{kind: misReuse, k: op.k, got: post.NextPage - pre.NextPage, want: uint64(post.Stats.NumPagesFree)})
+			}
+		}
 	case tDel:
 		e.t.DeleteBelow(op.v)
 		for i, v := range model {
@@ -577,8 +642,25 @@ func (e *teng) step(op top, model []uint64) (pan any, mism []tmis) {
 		}
 	case tReopen:
 		e.reopen()
+		e.reopenedInRun = true
+	}
+	if quiet {
+		return nil, e.mism
+	}
+	// Observations must not change the tree. If they do (a change gave Get or IterateKV a side
+	// effect: a lookup hint, a cache), the ORDER of reads matters and the search additionally makes
+	// every tracked key the first read after every operation (firstReadProbe).
+	var k0 [2]uint64
+	if !e.impure {
+		_, _, k0 = e.curKey()
 	}
 	e.observe(model)
+	if !e.impure {
+		if _, _, k1 := e.curKey(); k1 != k0 {
+			e.impure = true
+			e.res.Note += "observations (Get / read-only IterateKV) change the white-box state of the tree: first-read probes switched on. "
+		}
+	}
 	return nil, e.mism
 }
 
@@ -690,6 +772,8 @@ func (e *teng) classify(op top, preModel []uint64, preLeaf func() (map[uint64]bo
 	}
 	for _, m := range mism {
 		switch m.kind {
+		case misReuse:
+			set["C16/recycled-page-not-reused-after-reopen"] = true
 		case misReopen:
 			switch {
 			case m.field == "freePage":
@@ -877,7 +961,14 @@ func (s *tsearch) report(hist []top, classes []string, pan any, mism []tmis) {
 			e.res.Counters["failures_that_persist_without_the_reopens_left_to_C10"]++
 			return
 		}
+		reuse := false
+		for _, c := range classes {
+			reuse = reuse || c == "C16/recycled-page-not-reused-after-reopen"
+		}
 		classes = []string{"C16/map-misbehaves-after-reopen"}
+		if reuse {
+			classes = []string{"C16/recycled-page-not-reused-after-reopen"}
+		}
 		if s.confirmed[classes[0]] < 16 {
 			s.confirmed[classes[0]]++
 			if rr := e.runHistory(hist); rr.failAt != len(hist)-1 {
@@ -929,6 +1020,7 @@ func (e *teng) restoreOrDie(m z.VerifTreeMeta, used []byte) {
 func (s *tsearch) toState(id int32, m z.VerifTreeMeta, used []byte, key [2]uint64) {
 	e := s.e
 	if e.restore(m, used) {
+		e.reopenedInRun = false
 		return
 	}
 	if !e.noClone {
@@ -940,6 +1032,7 @@ func (s *tsearch) toState(id int32, m z.VerifTreeMeta, used []byte, key [2]uint6
 		}
 		if e.fresh() == nil && e.restore(m, used) {
 			e.res.Counters["live_tree_rebuilt_after_geometry_change_or_panic"]++
+			e.reopenedInRun = false
 			return
 		}
 	}
@@ -1131,6 +1224,76 @@ func (s *tsearch) refillProbe(id int32, reset top, pm z.VerifTreeMeta, pu []byte
 	}
 }
 
+// firstReadProbe: from state id, op is executed WITHOUT the usual observation and Get(k) is the
+// first read afterwards, for every tracked key k; then the full observation. Only used when
+// observations were seen to change the tree (see step).
+func (s *tsearch) firstReadProbe(id int32, op top, sm z.VerifTreeMeta, su []byte, sk [2]uint64, smodel []uint64) {
+	e := s.e
+	m2 := make([]uint64, len(smodel))
+	qop := op
+	qop.fn |= fnQuiet
+	noLeaf := func() (map[uint64]bool, map[uint64]uint64, bool) { return nil, nil, false }
+	// the last read BEFORE the operation: none (the state's own last observation), or - for the
+	// operations that free or rewrite pages - Get(h) for every tracked key h
+	lasts := []int{-1}
+	if op.kind != tSet {
+		for i := range e.tracked {
+			lasts = append(lasts, i)
+		}
+	}
+	for _, li := range lasts {
+		for _, k := range e.tracked {
+			s.toState(id, sm, su, sk)
+			copy(m2, smodel)
+			e.res.Counters["first_read_probes"]++
+			var h []top
+			var pan any
+			var mism []tmis
+			if li >= 0 {
+				g0 := top{kind: tGet, k: e.tracked[li], fn: fnQuiet}
+				h = append(h, g0)
+				pan, mism = e.step(g0, m2)
+			}
+			last := qop
+			if pan == nil && len(mism) == 0 {
+				h = append(h, qop)
+				pan, mism = e.step(qop, m2)
+			}
+			if pan == nil && len(mism) == 0 {
+				last = top{kind: tGet, k: k}
+				h = append(h, last)
+				pan, mism = e.step(last, m2)
+			}
+			if pan != nil || len(mism) > 0 {
+				mm := append([]tmis(nil), mism...)
+				s.report(s.hist(id, h...), e.classify(last, m2, noLeaf, pan, mm), pan, mm)
+				return
+			}
+		}
+	}
+}
+
+// reuseProbe (C16): from a state with recycled pages, Reopen and then the allocating Set: the
+// reopened tree must take the recycled pages before it moves the allocation frontier.
+func (s *tsearch) reuseProbe(id int32, op top, sm z.VerifTreeMeta, su []byte, sk [2]uint64, smodel []uint64) {
+	e := s.e
+	if e.prop != "C16" {
+		return
+	}
+	m2 := append([]uint64(nil), smodel...)
+	s.toState(id, sm, su, sk)
+	e.res.Counters["reopen_then_allocating_set_probes"]++
+	ro := top{kind: tReopen}
+	if pan, mism := e.step(ro, m2); pan != nil || len(mism) > 0 {
+		return // reported by the Reopen transition of this state
+	}
+	if pan, mism := e.step(op, m2); pan != nil || len(mism) > 0 {
+		mm := append([]tmis(nil), mism...)
+		noLeaf := func() (map[uint64]bool, map[uint64]uint64, bool) { return nil, nil, false }
+		s.report(s.hist(id, ro, op), e.classify(op, smodel, noLeaf, pan, mm), pan, mm)
+	}
+}
+
 func (e *teng) search() {
 	res, cfg := e.res, e.cfg
 	start := time.Now()
@@ -1238,6 +1401,15 @@ func (e *teng) search() {
 						s.report(s.hist(id, op), classes, pan, mm)
 						continue
 					}
+					if e.impure {
+						s.firstReadProbe(id, op, sm, su, sk, smodel)
+						// back to the successor state
+						s.toState(id, sm, su, sk)
+						copy(m2, smodel)
+						if pan, mism := e.step(op, m2); pan != nil || len(mism) > 0 {
+							ev.Fatalf("%s %s: transition %s passed, then failed when repeated", e.prop, cfg.Name, op)
+						}
+					}
 					m, u, key := e.curKey()
 					if !cfg.Persistent && !e.noClone && op.kind == tSet && m.NextPage > sm.NextPage && m.NextPage-sm.NextPage < 16 {
 						_, dup := seen[key]
@@ -1256,6 +1428,17 @@ func (e *teng) search() {
 					if !cfg.Persistent && !e.noClone && op.kind == tReset && key != emptyKey {
 						if _, dup := seen[key]; !dup {
 							s.refillProbe(id, op, m, u)
+						}
+					}
+					if cfg.Persistent && op.kind == tSet && sm.FreePage != 0 && (m.NextPage > sm.NextPage || m.Stats.NumPagesFree < sm.Stats.NumPagesFree) {
+						if _, dup := seen[key]; !dup {
+							s.reuseProbe(id, op, sm, su, sk, smodel)
+							s.toState(id, sm, su, sk)
+							copy(m2, smodel)
+							if pan, mism := e.step(op, m2); pan != nil || len(mism) > 0 {
+								ev.Fatalf("%s %s: transition %s passed, then failed when repeated", e.prop, cfg.Name, op)
+							}
+							m, u, key = e.curKey()
 						}
 					}
 					if sm.FreePage != 0 && m.Stats.NumPagesFree < sm.Stats.NumPagesFree && op.kind == tSet {
@@ -1871,6 +2054,29 @@ func seqPrefix(n int, step uint64, vals []uint64) []topJ {
 	return out
 }
 
+// shuffledPrefix: Sets of keys 1..n in a pseudo-random order (a fixed LCG, so the check is
+// deterministic), value 1 or 3 by another bit of the same generator.
+func shuffledPrefix(n int, seed uint64) []topJ {
+	x := seed*0x9E3779B97F4A7C15 + 0xD1B54A32D192ED03
+	next := func() uint64 {
+		x = x*6364136223846793005 + 1442695040888963407
+		return x >> 33
+	}
+	keys := make([]uint64, n)
+	for i := range keys {
+		keys[i] = uint64(i + 1)
+	}
+	for i := n - 1; i > 0; i-- {
+		j := int(next() % uint64(i+1))
+		keys[i], keys[j] = keys[j], keys[i]
+	}
+	var out []topJ
+	for _, k := range keys {
+		out = append(out, topJ{Op: "Set", K: k, V: 1 + 2*(next()&1)})
+	}
+	return out
+}
+
 var (
 	c10KeysFull = []uint64{1, 2, 3, 4, 5, 6, 7, 8, 9, 1 << 63, maxU - 2, maxU - 1}
 	c10ValsFull = []uint64{1, 2, 3, maxU}
@@ -1897,6 +2103,15 @@ func c10Jobs(tier, dir string) (jobs []*tjob) {
 			c.ValidateEvery = 1
 		}
 		jobs = append(jobs, &tjob{Prop: "C10", Cfg: c, Dir: dir})
+	}
+	// (0) [first in the list: each takes milliseconds] start states built by inserting 11-13 keys in a shuffled order with values on both sides
+	// of the thresholds: leaf and page-id geometries that ascending / descending fills never produce
+	// (which page holds which key range depends on the order of the splits)
+	for i := 0; i < pick(120, 400); i++ {
+		n := 10 + i%5
+		add(&tcfg{Name: fmt.Sprintf("ps80-shuffled-start-%d", i), PageSize: 80, Prefix: shuffledPrefix(n, uint64(i+1)),
+			Keys: []uint64{2, 3, 4, 5, uint64(n)}, Vals: []uint64{1, 3}, TS: []uint64{2, 4},
+			Iters: []string{"all:3"}, Reset: false, Depth: pick(3, 4), BudgetS: bud(8, 200)})
 	}
 	// (1) the full alphabet of DESIGN.md, shallow, smallest page size first (first counterexample = shortest)
 	add(&tcfg{Name: "ps80-full-alphabet", PageSize: 80, Keys: c10KeysFull, Vals: c10ValsFull, TS: c10TSFull,
